@@ -61,10 +61,15 @@ class RegexStub:
 
     rejects = False          # this engine refuses to compile the pattern (raises its `error`)
 
+    times_out = [False]          # shared flag: the NEXT engine entry hits its timeout (raises TimeoutError), once
+
     def _enter(self, name, kw):
         self.log.append((name, 'timeout' in kw, kw.get('timeout')))
         if self.rejects:
             raise self.error("engine rejects the pattern")
+        if RegexStub.times_out[0] and 'timeout' in kw:
+            RegexStub.times_out[0] = False
+            raise TimeoutError("regex timed out")
 
     def compile(self, pattern, flags=0, **kw):
         if self.rejects:
@@ -161,7 +166,7 @@ def timeout_constant(x: int) -> None:
 
 
 def engine_calls(fi: bool, fm: bool, fs: bool, upper: bool, other: bool, no_flags: bool, omit: bool, hits: int,
-                 dt1: float, dt2: float, dt3: float, word_pattern: bool, rejects: bool = False) -> None:
+                 dt1: float, dt2: float, dt3: float, word_pattern: bool, rejects: bool = False, times_out: bool = False) -> None:
     """
     pre: 0 <= hits <= 4 and 0.0 <= dt1 <= 10.0 and 0.0 <= dt2 <= 10.0 and 0.0 <= dt3 <= 10.0
     post: True
@@ -181,6 +186,10 @@ def engine_calls(fi: bool, fm: bool, fs: bool, upper: bool, other: bool, no_flag
         mine.rejects = True
         functions.regex = mine
     r = None
+    # the first timed engine entry may run into its timeout: whatever the builtin does about that (diagnostics,
+    # retries, friendlier messages) must not enter an engine without a timeout either
+    RegexStub.times_out[0] = True if times_out else False
+    rejects = rejects or (True if times_out else False)
     try:
         f = FUNCTIONS[name]
         try:
@@ -192,6 +201,7 @@ def engine_calls(fi: bool, fm: bool, fs: bool, upper: bool, other: bool, no_flag
             if not rejects:
                 raise
     finally:
+        RegexStub.times_out[0] = False
         _restore(saved)
     for (what, has, val) in stub.log:
         assert has and val is not None, "%s reaches a regular-expression engine (%s) without a timeout" % (name, what)
